@@ -1,6 +1,6 @@
 import tqdm
 import copy
-from decimal import getcontext
+from decimal import getcontext, Decimal
 from .auxiliary import *
 from .node import Node
 from .exactnode import ExactNode, ExactArrivalNode
@@ -36,6 +36,7 @@ class Simulation(object):
         self.current_time = 0.0
         self.network = network
         self.set_classes(node_class, arrival_node_class, exit_node_class, individual_class, server_class)
+        self.exact = exact
         if exact:
             self.NodeTypes = [ExactNode for _ in range(network.number_of_nodes)]
             self.ArrivalNodeType = ExactArrivalNode
@@ -274,13 +275,14 @@ class Simulation(object):
         """
         Runs the simulation until max_simulation_time is reached.
         """
+        horizon = Decimal(str(max_simulation_time)) if self.exact else max_simulation_time
         next_active_node = self.find_next_active_node()
         self.current_time = next_active_node.next_event_date
 
         if progress_bar:
             self.progress_bar = tqdm.tqdm(total=max_simulation_time)
 
-        while self.current_time < max_simulation_time:
+        while self.current_time < horizon:
             next_active_node = self.event_and_return_nextnode(next_active_node)
             self.statetracker.timestamp()
 
